@@ -81,9 +81,9 @@ impl Check for C02 {
     }
     fn gens(&self) -> Vec<GenSpec> {
         vec![
-            GenSpec { name: "tree", quick: 1200, thorough: 40_000 },
-            GenSpec { name: "hostile", quick: 800, thorough: 30_000 },
-            GenSpec { name: "flat", quick: 600, thorough: 20_000 },
+            GenSpec { name: "tree", quick: 12_000, thorough: 600_000 },
+            GenSpec { name: "hostile", quick: 8000, thorough: 400_000 },
+            GenSpec { name: "flat", quick: 6000, thorough: 200_000 },
             GenSpec { name: "fixed", quick: FIXED.len() as u64, thorough: FIXED.len() as u64 },
         ]
     }
@@ -98,8 +98,8 @@ impl Check for C02 {
     }
     fn floor(&self, tier: Tier) -> u64 {
         match tier {
-            Tier::Quick => 500,
-            Tier::Thorough => 10_000,
+            Tier::Quick => 5000,
+            Tier::Thorough => 200_000,
         }
     }
     fn required_counters(&self) -> Vec<&'static str> {
